@@ -148,10 +148,11 @@ bool RecDmp::HandlePDUData(uint32_t vector, const HeaderSet &headers, const uint
 
 string do_acn(const vector<string> &a) {
   if (a.size() < 3) return "bad-args";
-  Twin t[3];
+  Twin t[4];
   t[0].setup(a[1]);
   t[1].setup(a[1]);
   t[2].setup(a[1]);
+  t[3].setup(a[1]);
   c06::Trace tr;
   for (size_t k = 2; k < a.size(); k++) {
     vector<uint8_t> d = vh::unhex(a[k]);
@@ -159,7 +160,20 @@ string do_acn(const vector<string> &a) {
     string o1 = t[1].deliver(c06::POISON[1], d);
     string o2;
     { c06::PrevMode pm; o2 = t[2].deliver(c06::POISON[2], d); }
-    tr.add3(o0, o1, o2);
+    string o3;
+    { c06::KernelMode km; o3 = t[3].deliver(c06::POISON[3], d); }
+    tr.add4(o0, o1, o2, o3);
+    // outputs only: events + each universe's DMX data and active priority (without the per-source bookkeeping)
+    {
+      string o;
+      vector<string> f = vh::split(o0, '|');
+      for (size_t i = 0; i < f.size(); i++) {
+        if (i == 0) { o = f[0]; continue; }
+        vector<string> g = vh::split(f[i], ':');
+        o += "|" + g[0] + ":" + (g.size() > 1 ? g[1] : "") + ":" + (g.size() > 2 ? g[2] : "");
+      }
+      tr.out(o);
+    }
   }
   return tr.result();
 }
